@@ -7,18 +7,18 @@ mode=$1; diff=$(readlink -f "$2"); shift 2
 case $mode in
 verify)
   demo=$(readlink -f "$1")
-  rm -rf /tmp/mv /tmp/mv0; git -C /repo worktree prune
-  git -C /repo worktree add --detach /tmp/mv HEAD >/dev/null 2>&1 || exit 2
-  git -C /repo worktree add --detach /tmp/mv0 HEAD >/dev/null 2>&1 || exit 2
-  if ! git -C /tmp/mv apply "$diff" 2>/tmp/mv.err; then
-     git -C /tmp/mv apply -3 "$diff" 2>>/tmp/mv.err || { echo "APPLY FAILED"; cat /tmp/mv.err; git -C /repo worktree remove --force /tmp/mv; git -C /repo worktree remove --force /tmp/mv0; exit 2; }
+  rm -rf /tmp/mv-$$ /tmp/mv0-$$; git -C /repo worktree prune
+  git -C /repo worktree add --detach /tmp/mv-$$ HEAD >/dev/null 2>&1 || exit 2
+  git -C /repo worktree add --detach /tmp/mv0-$$ HEAD >/dev/null 2>&1 || exit 2
+  if ! git -C /tmp/mv-$$ apply "$diff" 2>/tmp/mv-$$.err; then
+     git -C /tmp/mv-$$ apply -3 "$diff" 2>>/tmp/mv-$$.err || { echo "APPLY FAILED"; cat /tmp/mv-$$.err; git -C /repo worktree remove --force /tmp/mv-$$; git -C /repo worktree remove --force /tmp/mv0-$$; exit 2; }
   fi
-  echo "applied: $(git -C /tmp/mv diff --stat | tail -1)"
-  /verif/tools/repo_tests.sh /tmp/mv 2>&1 | grep -E "sub-tests|FAILED|build failed"
-  rm -rf /tmp/mv/_build
-  ( cd /tmp && timeout 1800 bash "$demo" /tmp/mv >/tmp/mv.demo.out 2>&1 ); echo "demo on mutant: exit $? (want non-zero)"; tail -3 /tmp/mv.demo.out | cut -c1-200
-  ( cd /tmp && timeout 1800 bash "$demo" /tmp/mv0 >/tmp/mv0.demo.out 2>&1 ); echo "demo on clean:  exit $? (want 0)"; tail -2 /tmp/mv0.demo.out | cut -c1-200
-  git -C /repo worktree remove --force /tmp/mv; git -C /repo worktree remove --force /tmp/mv0; git -C /repo worktree prune
+  echo "applied: $(git -C /tmp/mv-$$ diff --stat | tail -1)"
+  /verif/tools/repo_tests.sh /tmp/mv-$$ 2>&1 | grep -E "sub-tests|FAILED|build failed"
+  rm -rf /tmp/mv-$$/_build
+  ( cd /tmp && timeout 1800 bash "$demo" /tmp/mv-$$ >/tmp/mv-$$.demo.out 2>&1 ); echo "demo on mutant: exit $? (want non-zero)"; tail -3 /tmp/mv-$$.demo.out | cut -c1-200
+  ( cd /tmp && timeout 1800 bash "$demo" /tmp/mv0-$$ >/tmp/mv0-$$.demo.out 2>&1 ); echo "demo on clean:  exit $? (want 0)"; tail -2 /tmp/mv0-$$.demo.out | cut -c1-200
+  git -C /repo worktree remove --force /tmp/mv-$$; git -C /repo worktree remove --force /tmp/mv0-$$; git -C /repo worktree prune
   ;;
 check)
   [ -z "$(git -C /repo status --porcelain)" ] || { echo "/repo not clean"; exit 2; }
